@@ -177,6 +177,7 @@ func (p2 *Writer) Error() error {
 }
 
 func (p2 *Writer) Release() {
+	poisonOnRelease(p2.buf)
 	bytebufferpool.Put(p2.buf)
 	p2.written = 0
 	p2.opError = nil
